@@ -19,6 +19,8 @@ type C10Target struct {
 	HasPass bool              `json:"has_pass_env,omitempty"` // pass_env given (possibly empty list)
 	Env     map[string]string `json:"env,omitempty"`
 	Srcs    []string          `json:"srcs,omitempty"` // files of the package
+	// Sandbox: "" = attribute not given, "True" / "False" = sandbox = True / False
+	Sandbox string `json:"sandbox,omitempty"`
 }
 
 // C10Spec is one package `p` of dumping genrules plus the [build]/[buildenv] configuration under test.
@@ -27,6 +29,9 @@ type C10Spec struct {
 	PassUnsafeEnv []string          `json:"cfg_pass_unsafe_env,omitempty"`
 	BuildEnv      map[string]string `json:"buildenv,omitempty"`
 	Targets       []*C10Target      `json:"targets"`
+	// BuiltinSandbox: [sandbox] build = true with an empty tool (plz re-execs itself as `plz sandbox`). The commands then
+	// cannot append to the action log (read-only root, fresh /tmp); they add a RUN_ID line to the dump instead.
+	BuiltinSandbox bool `json:"builtin_sandbox,omitempty"`
 }
 
 func (s *C10Spec) Labels() []string {
@@ -54,6 +59,9 @@ func (s *C10Spec) configLines() []string {
 	}
 	for _, v := range s.PassUnsafeEnv {
 		out = append(out, "passunsafeenv = "+v)
+	}
+	if s.BuiltinSandbox {
+		out = append(out, "[sandbox]", "build = true", "tool =")
 	}
 	if len(s.BuildEnv) > 0 {
 		out = append(out, "[buildenv]")
@@ -83,7 +91,14 @@ func (r *Repo) C10Write(s *C10Spec) {
 				srcs[f] = true
 			}
 		}
-		fmt.Fprintf(&b, "    cmd = %s,\n", pyStr(fmt.Sprintf("echo %s >> %s && env | sort > $OUT", label, r.LogPath)))
+		if s.BuiltinSandbox {
+			fmt.Fprintf(&b, "    cmd = %s,\n", pyStr("env | sort > $OUT && echo RUN_ID=$RANDOM-$(date +%s%N) >> $OUT"))
+			if t.Sandbox != "" {
+				fmt.Fprintf(&b, "    sandbox = %s,\n", t.Sandbox)
+			}
+		} else {
+			fmt.Fprintf(&b, "    cmd = %s,\n", pyStr(fmt.Sprintf("echo %s >> %s && env | sort > $OUT", label, r.LogPath)))
+		}
 		if t.HasPass || len(t.PassEnv) > 0 {
 			fmt.Fprintf(&b, "    pass_env = %s,\n", pyList(t.PassEnv))
 		}
